@@ -12,7 +12,7 @@ Algebra Z — E plus identities that hold except for the sign of an exactly-zero
     2Sum(-a,-b) = -2Sum(a,b)     2Prod(-a,b) = -2Prod(a,b)     2Sub(a,b) = 2Sum(a,-b)
 Nothing else: no associativity, no distributivity, no x*1, no constant folding of floats.
 """
-import hashlib
+import hashlib, re
 from .terms import mk, tag, Node, rebuild, all_nodes
 
 _dig = {}
@@ -91,6 +91,19 @@ def pow2_recip(y):
         return None
     return mk("const", "f64", (2046 - e) << 52)
 
+def zipped_table(hi, lo):
+    """TwoFloat { hi: A[i], lo: B[i] } for two constant f64 tables of one length is entry i of the table of pairs"""
+    if tag(hi) == "index" and tag(lo) == "index" and hi[2] is lo[2] and tag(hi[1]) == "carray" and tag(lo[1]) == "carray":
+        ma = re.match(r"^\[f64; (\d+)\]$", hi[1][1]); mb = re.match(r"^\[f64; (\d+)\]$", lo[1][1])
+        if ma and mb and ma.group(1) == mb.group(1):
+            return mk("index", zip_carrays(hi[1], lo[1]), hi[2])
+    return None
+
+def zip_carrays(a, b):
+    n = int(re.match(r"^\[f64; (\d+)\]$", a[1]).group(1))
+    ha, hb = a[2], b[2]
+    return mk("carray", "[TwoFloat; %d]" % n, "".join(ha[16 * i:16 * i + 16] + hb[16 * i:16 * i + 16] for i in range(n)))
+
 class Normalizer:
     def __init__(self, mode="E", eft=None, strip_fma_provider=True, opcomm=False):
         assert mode in ("E", "Z")
@@ -119,6 +132,10 @@ class Normalizer:
             if tag(x) == "agg" and i < len(x[2]) and x[2][i] is not None:
                 return x[2][i]
             return mk(*a)
+        if tg == "agg" and a[1][0] == "adt" and a[1][1] == "TwoFloat" and len(a[2]) == 2:
+            z = zipped_table(a[2][0], a[2][1])
+            if z is not None:
+                return z
         if tg == "call" and self.opcomm and len(a) == 3:
             # sign queries: TwoFloat::is_sign_positive(x) is the sign bit of x.hi (checked by C06/R12d);
             # is_sign_negative is its complement
